@@ -38,6 +38,9 @@ impl Draw<'_> {
     pub fn weighted(&self, site: &'static str, w: &[u32]) -> usize {
         self.w.lock().choices.choose(site, w)
     }
+    pub fn enumerate(&self, site: &'static str, n: u32) -> u32 {
+        self.w.lock().choices.enumerate(site, n)
+    }
 }
 
 pub const BLKSIZES: [usize; 11] = [512, 8, 9, 16, 511, 513, 1024, 1428, 8192, 65463, 65464];
@@ -140,9 +143,111 @@ fn peer_timeout(d: &Draw, tmo_s: u64) -> Ns {
     tmo_s * SEC / 100 * f
 }
 
+/// Enumerated strata for C04 / C07 / C08: small configurations x every position, walked by the run
+/// number (every fourth run), so that a batch covers the whole product deterministically.
+///   C04: one drop or one duplicate on the n-th datagram of the data phase
+///   C07: the peer falls silent or sends ERROR(code) at its j-th received datagram
+///   C08: one duplicate / stale ACK (1..4 back) injected at the reader's j-th received datagram
+pub const STRAT_W: [u64; 5] = [1, 2, 3, 4, 8];
+pub fn strat_space(prop: &str) -> u64 {
+    // kind x handshake x windowsize x blocks x tail x position x variant
+    let common = 2 * 2 * 5 * 10 * 3;
+    match prop {
+        "C04" => common * 40 * 2,
+        "C07" => common * 20 * 9,
+        "C08" => (common / 2) * 20 * 5,
+        _ => 0,
+    }
+}
+
+fn xfer_stratum(prop: &'static str, w: &Arc<World>) -> Scn {
+    let d = Draw { w };
+    let sandbox = Sandbox::new();
+    w.lock().sb_root = sandbox.root.to_string_lossy().into_owned();
+    let dir = sandbox.dir("srv");
+    let kind = if prop == "C08" || d.enumerate("strat.kind", 2) == 0 { Kind::Download } else { Kind::Upload };
+    let handshake = d.enumerate("strat.handshake", 2) == 1;
+    let wsz = if handshake { STRAT_W[d.enumerate("strat.windowsize", 5) as usize] } else { [1u64; 5][d.enumerate("strat.windowsize", 5) as usize] };
+    let b: usize = if handshake { 16 } else { 512 };
+    let blocks = 1 + d.enumerate("strat.blocks", 10) as usize + if handshake { wsz as usize } else { 0 };
+    let tail = [0usize, 1, b - 1][d.enumerate("strat.tail", 3) as usize];
+    let len = (blocks - 1) * b + tail;
+    let mut srv = ServerCfg::new(&dir);
+    srv.single_port = d.chance("swarm.single_port", 1, 3);
+    let mut xc = XferCfg::new(srv.addr(), "data.bin");
+    if handshake {
+        xc.opts = vec![("blksize".into(), b.to_string()), ("windowsize".into(), wsz.to_string())];
+    }
+    xc.resend_request = false;
+    xc.per_block_ack = d.chance("swarm.reader.per_block_ack", 1, 5);
+    xc.gap_ack = !d.chance("swarm.reader.no_gap_ack", 1, 4);
+    let mut fc = FaultCfg::default();
+    let mut rules = Rules::default();
+    let mut conformant = true;
+    let what;
+    match prop {
+        "C04" => {
+            rules.c04 = true;
+            fc.after_first_data = true;
+            let pos = d.enumerate("strat.position", 40) as u64;
+            let fate = if d.enumerate("strat.fate", 2) == 0 { crate::world::Fate::Drop } else { crate::world::Fate::Dup };
+            fc.forced_nth = Some((pos, fate));
+            what = format!("{fate:?} on data-phase datagram #{pos}");
+        }
+        "C07" => {
+            rules.c07 = true;
+            let step = 1 + d.enumerate("strat.step", 20);
+            let v = d.enumerate("strat.variant", 9);
+            conformant = false;
+            if v == 8 {
+                xc.script.push((step, Adv::Silent));
+                what = format!("silence at step {step}");
+            } else {
+                xc.script.push((step, Adv::Error(v as u16, v % 2 == 0)));
+                what = format!("ERROR {v} at step {step}");
+            }
+        }
+        _ => {
+            rules.c08 = true;
+            let step = 1 + d.enumerate("strat.step", 20);
+            let v = d.enumerate("strat.variant", 5);
+            conformant = false;
+            xc.script.push((step, if v == 0 { Adv::AckDup } else { Adv::AckStale(v) }));
+            what = format!("{} at step {step}", if v == 0 { "duplicate ACK".to_string() } else { format!("stale ACK {v} back") });
+        }
+    }
+    let data = Arc::new(content(len, 17));
+    let path = dir.join("data.bin");
+    if kind == Kind::Download {
+        std::fs::write(&path, &*data).expect("write served file");
+    }
+    let desc = format!("STRATUM {kind:?} {} blocks={blocks} len={len} blksize={b} windowsize={wsz} handshake={handshake}: {what}", srv.describe());
+    {
+        let mut g = w.lock();
+        g.budget_left = fc.budget;
+        g.cfg = fc;
+    }
+    let dally = xc.dally;
+    let (peer, client) = match kind {
+        Kind::Download => w.add_peer(Box::new(Reader::new(xc)), false, 0),
+        Kind::Upload => w.add_peer(Box::new(Writer::new(xc, data.to_vec())), false, 0),
+    };
+    let spec = XferSpec { client, peer, kind, content: data, path, conformant, dally, timeout_ratio: 1 };
+    let mut mon = XferMon::new(prop, rules, vec![spec], 0);
+    mon.probes.insert("stratum_runs", 1);
+    w.add_monitor(Box::new(mon));
+    boot_server(w, &srv).expect("server config");
+    w.start_peer_at(peer, 10 * MS);
+    Scn { sandbox, desc, step_cap: 400_000, time_cap: 2_000_000 * SEC, faultfree: false }
+}
+
 /// One server, one model client transferring one file; rules and faults depend on the property.
 pub fn xfer(prop: &'static str, tier: Tier, w: &Arc<World>) -> Scn {
     let d = Draw { w };
+    // runs with r % 4 == 0 (ship build) and r % 4 == 3 (chk build) walk the enumerated stratum with index r / 4
+    if matches!(prop, "C04" | "C07" | "C08") && matches!(d.enumerate("strat.slot", 4), 0 | 3) {
+        return xfer_stratum(prop, w);
+    }
     let sandbox = Sandbox::new();
     w.lock().sb_root = sandbox.root.to_string_lossy().into_owned();
     let dir = sandbox.dir("srv");
